@@ -1,6 +1,7 @@
 \* The named deviation is generated (StaleSuffix = TRUE): the equivalence itself is not
 \* claimed; what is claimed is that the stale-suffix install is the only step that breaks it,
 \* and that the mechanism stays coherent (cache reloadable, nothing below the compaction point).
+\* 4,978 distinct states, 457,471 generated; 24 s with 4 workers.
 SPECIFICATION Spec
 CONSTANTS
   Scopes = {"s1"}
